@@ -26,7 +26,7 @@ ANCHORS = [(_S + "base_selector.py", "BaseSelector._select_features"), (_S + "me
            (_S + "measures/quantitative_measures.py", "kruskal_measure"), (_S + "measures/qualitative_measures.py", "tschuprowt_measure"),
            (_S + "filters/quantitative_filters.py", "quantitative_filter"), (_S + "regression_selector.py", "RegressionSelector.__init__")]
 DECIDING_ANCHORS = [(_S + "base_selector.py", "BaseSelector._select_features")]
-N = {"quick": 200, "thorough": 4000}
+N = {"quick": 300, "thorough": 4000}
 REQUIRED_COUNTERS = {"quick": {"pairs_compared": 700, "perfect_features_planted": 90, "tag:negate": 150, "tag:rescale": 150, "tag:rename": 150, "tag:permute_rows": 150, "tag:permute_columns": 150},
                      "thorough": {"pairs_compared": 14000, "perfect_features_planted": 1800, "tag:negate": 3000, "tag:rescale": 3000, "tag:rename": 3000, "tag:permute_rows": 3000, "tag:permute_columns": 3000}}
 
